@@ -763,9 +763,15 @@ def t2_direct(ctx, r, spec, api, svc, mfiles, svc_idx):
             if isinstance(e, KeyError):
                 impl["key"] = e.args[0]
         except AttributeError as e:
-            # the probe's `self` lacks something the current code expects: the direct probe cannot run on this tree
-            ctx.count("t2_direct_self", f"probe unavailable: {e}"[:80])
-            return
+            if not isinstance(stub, stub_cls):
+                # on the REAL second-pass builder an AttributeError is the code's own outcome, not a lack of the probe
+                impl = {"error": "AttributeError"}
+            else:
+                # the stand-in `self` lacks something the current code expects: the direct probe cannot run on this tree
+                # (not silent: the real builder could not be captured AND the stand-in does not fit — a broken correspondence)
+                ctx.disagree("T2:c08._maybe_get_lro", f"the direct probe cannot run: no second-pass builder captured and the stand-in raised {e}"[:300],
+                             {"spec": spec, "selectors": [a, b], "output": out, "annotated": annotated})
+                return
         cases.append((a, b, out, annotated, impl))
         ops.append({"op": "c08.lro", "files": mfiles, "file": svc_idx, "output": out, "opinfo": [a, b] if annotated else None})
     for (a, b, out, annotated, impl), mo in zip(cases, ask(ctx, ops)):
@@ -859,9 +865,56 @@ def t2_resolve(ctx, r):
 
 # ------------------------------------------------------------------ one API end to end
 
-def fail_key(spec, sig):
-    cases = {m[k]["case"] for m in spec["methods"] if m["kind"] in ("lro", "excluded") for k in ("response", "metadata")}
-    if "rel-nested" in cases and sig.startswith("KeyError@schema/api.py:_maybe_get_lro"):
+def defined_messages(spec):
+    """full names of every message the request defines (INPUT side, from the spec)"""
+    out = set(WKT)
+    for role in ROLES:
+        pk = fpkg(spec, role)
+        out.update(f"{pk}.{n}" for n in spec["files"][role]["msgs"])
+        for path in spec["files"][role]["nested"]:
+            out.update(f"{pk}." + ".".join(path[:k]) for k in range(1, len(path) + 1))
+    return out
+
+
+def relative_nested_trigger(spec):
+    """the trigger of the recorded finding `relative-nested-type-name`, decided from the INPUT alone: walking the services in the
+    load order of their files and their methods in declaration order (the first exception aborts the build), the FIRST
+    operation_info name that does not denote a defined message is a dotted name WITHOUT a leading dot that names a NESTED message
+    of the method's own package relatively (`Outer.Inner` with `<method's package>.Outer.Inner` and its parent defined).
+    Returns that name (the key of the recorded KeyError) or None — None also when an earlier name is empty or undefined in any
+    other way (those are other outcomes, never this finding)."""
+    defined = defined_messages(spec)
+    for role in spec["order"]:
+        if role == "svc":
+            pk, methods = spkg(spec), spec["methods"]
+        elif role == "unimp" and spec.get("svc2"):
+            pk, methods = fpkg(spec, "unimp"), spec["svc2"]["methods"]
+        else:
+            continue
+        for m in methods:
+            if m["kind"] not in ("lro", "excluded"):      # only annotated Operation-returning methods reach the lookups
+                if m["kind"] == "present-empty":
+                    return None
+                continue
+            texts = [m["response"]["text"], m["metadata"]["text"]]
+            if "" in texts:
+                return None
+            for t in texts:
+                if ("." in t and t in defined) or ("." not in t and f"{pk}.{t}" in defined):
+                    continue
+                full = f"{pk}.{t}"
+                if "." in t and not t.startswith(".") and not t.endswith(".") and full in defined and full.rsplit(".", 1)[0] in defined:
+                    return t
+                return None
+    return None
+
+
+def fail_key(spec, err):
+    """key of a generation failure.  The known key is given only when the INPUT has the recorded defect's trigger AND the symptom
+    is the recorded one: KeyError raised by `_maybe_get_lro` whose key is exactly the relative nested name as written."""
+    sig, msg = err[0], err[1]
+    t = relative_nested_trigger(spec)
+    if t is not None and sig.startswith("KeyError@schema/api.py:_maybe_get_lro") and msg == repr(t):
         return "relative-nested-type-name"
     return "generation-failed:" + sig
 
@@ -920,7 +973,7 @@ def _run_spec(ctx, r, spec, label, files, req, transports):
         if model_err is None or model_err["error"] != etype:
             ctx.disagree("T3:c08.generation-outcome", f"model {model_err or 'generates'} vs impl {err}", {"spec": spec})
         # oracle: every method here has existing types and both names -> the statement promises a library
-        ctx.fail(fail_key(spec, err[0]), f"generator raised {err[0]}: {err[1]} for an API whose LRO types all exist "
+        ctx.fail(fail_key(spec, err), f"generator raised {err[0]}: {err[1]} for an API whose LRO types all exist "
                  f"({[(m['response']['text'], m['metadata']['text']) for m in spec['methods'] if 'response' in m]})", {"spec": spec})
         return
     if model_err is not None:
@@ -1126,6 +1179,9 @@ def check_programs(ctx, spec, codec, svc, sv_res, mfiles, svc_idx, progs, outs, 
         if what == "ops_table":
             ctx.traces += 1
             if out.get("no_ops_client"):
+                fname = mfiles[svc_idx]["name"] if label == "Library" else fpath(spec, "unimp")
+                if sv_res.get(fname, {}).get("has_lro"):      # not silent: a service WITH LRO methods must have the property on REST too
+                    ctx.disagree("T3:c08.operations_client-presence", f"{label}: the REST transport has no operations_client property, model has_lro=True", payload)
                 continue
             if "table" not in out:
                 ctx.fail("rest-operations-client", f"{label}: REST operations client could not be built: {str(out)[-400:]}", payload)
@@ -1381,7 +1437,7 @@ def run_outcome(ctx, spec, expect, label):
     if expect == "rejected" and not err:
         ctx.fail("missing-type-not-rejected", f"{label}: an annotated Operation-returning method lacking a type name was generated", {"spec": spec, "outcome_only": expect})
     if expect == "generated" and err:
-        ctx.fail(fail_key(spec, err[0]), f"{label}: generator raised {err[0]}: {err[1]} although the named types exist in the request "
+        ctx.fail(fail_key(spec, err), f"{label}: generator raised {err[0]}: {err[1]} although the named types exist in the request "
                  f"({[(m['response']['text'], m['metadata']['text']) for m in spec['methods'] if 'response' in m]})", {"spec": spec, "outcome_only": expect})
     return err
 
